@@ -58,7 +58,7 @@ class C18(F.Spec):
     def gen(self, rng, i, big=False):
         m = rng.choice([2, 3, 4, 4, 5, 6, 6, 0, 1, 7])
         ub = rng.choice([0, 1])
-        ikind = rng.choice(["genuine"] * 4 + ["flipbody", "flipsig", "flipfooter", "badfooter", "tiny"])
+        ikind = rng.choice(["genuine"] * 4 + ["flipbody", "flipsig", "flipfooter", "badfooter", "tiny", "keysize"])
         L = rng.choice([rng.randint(530, 3000), rng.randint(3000, 9000), 4096 + 528, 8192, 8192 + 1, rng.randint(9000, 30000)])
         if big:
             L = rng.randint(400000, 503808)
@@ -76,6 +76,14 @@ class C18(F.Spec):
         else:
             ops += ["imgfill %d %d" % (L, rng.randint(1, 1 << 30))]
         ops.append("sign")
+        if ikind == "keysize" and L > 528:
+            # the genuine body and signature, then filler, then a footer announcing a larger key: with that key size the hashed
+            # range would again be exactly the body and the 512 bytes behind it the genuine signature - not the expected footer
+            K = rng.choice([768, 1024, 712])
+            f6 = (K + 255) // 256
+            footer = GOOD_FOOTER[:6] + bytes([f6, f6 * 256 - K]) + GOOD_FOOTER[8:]
+            ops += ["imgtrunc 16", "imgfill %d %d" % (K - 512, rng.randint(1, 1 << 30)), "imgadd " + footer.hex()]
+            L += K - 512
         flip = None
         if ikind == "flipbody" and L > 528:
             flip = rng.randrange(L - 528)
